@@ -94,7 +94,7 @@ impl BlpHeader {
     /// 0 level means original image.
     pub fn mipmap_pixels(&self, i: usize) -> u32 {
         let (w, h) = self.mipmap_size(i);
-        w * h
+        w.saturating_mul(h)
     }
 
     /// Return alpha bits count in encoding
